@@ -12,9 +12,13 @@
   (`arrayLoop_noLA`, `dictLoop_noLA`).
 
   Truncation + extension = **locality**: if two buffers agree on their first `n` bytes, a parse
-  that succeeds on one of them and ends before `n` is the parse on the other (`parseObj_local`,
-  `indirectHead_local`).  Props/C05.lean lifts `stream_no_resync` to the whole indirect-object
-  parser with it.
+  that succeeds on one of them and ends before `n` is the parse on the other (`tok_local`,
+  `parseObjB_local`, `parseObj_local`, `indirectHead_local`; the cut must not fall immediately after
+  an `R`, and an integer result needs the reference look-ahead to fail on the other buffer too —
+  both void for the `<<dict>> stream EOL` heads of C05).  Also here: `parse_pdf_obj` never returns a
+  stream object (`parseObjB_not_stream`, `indirectHead_not_stream`) and a parsed head consumes input
+  (`indirectHead_progress`).  Props/C05Whole.lean lifts `stream_no_resync` and `stream_framing` to
+  the whole indirect-object parser with these.
 -/
 import Parsley.Lemmas.TruncObj
 import Parsley.Lemmas.Indirect
@@ -967,5 +971,386 @@ theorem parseObjB_ext (max : Nat) : ∀ b, ElemExt max b (parseObjB max b) := by
           unfold leaveObj
           simp only
           rw [if_neg hz, hcur]
+
+/-! ## locality = truncation + extension -/
+
+/-- locality of a token parser that is stable under truncation and extension -/
+theorem tok_local {α : Type} {p : P α} (hT : Trunc p) (hE : Ext p) (s t : Bytes) (i n : Nat)
+    (v : Located α) (c : Nat) (ht : n ≤ t.length) (hst : s.take n = t.take n) (hi : i ≤ s.length)
+    (h : p s i = (.ok v, c)) (hcn : c < n) : p t i = (.ok v, c) := by
+  have h1 := hT s i n v c hi h (by omega)
+  rw [hst] at h1
+  exact hE t i n v c ht h1 hcn
+
+theorem exact_local {tag s t : Bytes} {n i j : Nat} (hst : s.take n = t.take n)
+    (h : exact tag s i = (true, j)) (hj : j ≤ n) : exact tag t i = (true, j) := by
+  have h1 := exact_take_ok (n := n) h hj
+  rw [hst] at h1
+  exact exact_ext_ok h1
+
+theorem startsWith_local {tag s t : Bytes} {n i : Nat} (hst : s.take n = t.take n)
+    (h : startsWith tag s i = true) (hj : i + tag.length ≤ n) : startsWith tag t i = true := by
+  have h1 : startsWith tag (s.take n) i = true := by
+    rw [startsWith_take]; simp only [Bool.and_eq_true, decide_eq_true_eq]; exact ⟨h, by omega⟩
+  rw [hst] at h1
+  exact startsWith_ext h1
+
+/-- **Locality of `parse_pdf_obj`**, every nesting budget: if two buffers agree on their first `n`
+    bytes (and the cut does not fall immediately after an `R`), a parse that succeeds on one of them
+    and ends strictly before `n` is the parse on the other — for an integer result, provided the
+    reference look-ahead fails on the other buffer too. -/
+theorem parseObjB_local (max b cur : Nat) (s t : Bytes) (i n : Nat) (v : Located Obj) (c cur' : Nat)
+    (hs : n ≤ s.length) (ht : n ≤ t.length) (hst : s.take n = t.take n) (hi : i ≤ n)
+    (hc : cur ≤ max) (hb : max - cur ≤ b)
+    (h : parseObjB max b cur s i = ((.ok v, c), cur')) (hcn : c < n)
+    (hR : peek s (n - 1) ≠ some 82)
+    (hnl : (∃ z, v.val = .int z) → lookAhead t c = false) :
+    parseObjB max b cur t i = ((.ok v, c), cur') := by
+  have h1 := parseObjB_trunc max b cur s i n v c cur' (by omega) hs hc hb h ⟨by omega, Or.inr hR⟩
+  rw [hst] at h1
+  exact parseObjB_ext max b cur t i n v c cur' hi ht hc hb h1 hcn hnl
+
+/-- `parseObjB_local` for the context-level entry point `parse_pdf_obj(ctxt, buf)` -/
+theorem parseObj_local (d : Depth) (s t : Bytes) (i n : Nat) (v : Located Obj) (c : Nat) (d' : Depth)
+    (hs : n ≤ s.length) (ht : n ≤ t.length) (hst : s.take n = t.take n) (hi : i ≤ n)
+    (hd : d.cur ≤ d.max)
+    (h : parseObj d s i = ((.ok v, c), d')) (hcn : c < n)
+    (hR : peek s (n - 1) ≠ some 82)
+    (hnl : (∃ z, v.val = .int z) → lookAhead t c = false) :
+    parseObj d t i = ((.ok v, c), d') := by
+  unfold parseObj at h ⊢
+  cases hB : parseObjB d.max (d.max - d.cur) d.cur s i with
+  | mk r cur' =>
+    rw [hB] at h
+    simp only [Prod.mk.injEq] at h
+    obtain ⟨hr, hd'⟩ := h
+    subst hr
+    rw [parseObjB_local d.max (d.max - d.cur) d.cur s t i n v c cur' hs ht hst hi hd (Nat.le_refl _) hB hcn hR hnl]
+    simp only [hd']
+
+/-- **Locality of the head `n g obj <object>` of an indirect object.**  If two buffers agree on their
+    first `n` bytes, a head that parses on one of them and ends strictly before `n` parses identically
+    on the other (for an integer object: provided the reference look-ahead fails there too). -/
+theorem indirectHead_local (c : Ctx) (s t : Bytes) (i n : Nat) (h : Head) (j : Nat) (c1 : Ctx)
+    (hs : n ≤ s.length) (ht : n ≤ t.length) (hst : s.take n = t.take n) (hi : i ≤ s.length)
+    (hc : c.cur ≤ c.max)
+    (hh : indirectHead c s i = ((.ok h, j), c1)) (hjn : j < n) (hR : peek s (n - 1) ≠ some 82)
+    (hnl : (∃ z, h.o.val = .int z) → lookAhead t j = false) :
+    indirectHead c t i = ((.ok h, j), c1) := by
+  unfold indirectHead at hh
+  have h1 := integerP_progress s i hi
+  split at hh
+  · cases hh
+  · cases hh
+  · rename_i num j0 heq
+    rw [heq] at h1; obtain ⟨-, -, hj1, hj2⟩ := h1
+    split at hh
+    · cases hh
+    · rename_i hu1
+      have h2 := wsEOL_progress true s j0 hj2
+      split at hh
+      · cases hh
+      · cases hh
+      · rename_i u j1 heq2
+        rw [heq2] at h2; obtain ⟨hk1, hk2, -⟩ := h2
+        have h3 := integerP_progress s j1 hk2
+        split at hh
+        · cases hh
+        · cases hh
+        · rename_i gen j2 heq3
+          rw [heq3] at h3; obtain ⟨-, -, hl1, hl2⟩ := h3
+          split at hh
+          · cases hh
+          · rename_i hu2
+            have h4 := wsEOL_progress true s j2 hl2
+            split at hh
+            · cases hh
+            · cases hh
+            · rename_i u2 j3 heq4
+              rw [heq4] at h4; obtain ⟨hm1, hm2, -⟩ := h4
+              split at hh
+              · cases hh
+              · rename_i j4 heq5
+                have g1 := exact_ok heq5 hm2
+                have h5 := wsEOL_progress true s j4 g1.2
+                split at hh
+                · cases hh
+                · cases hh
+                · rename_i u3 j5 heq6
+                  rw [heq6] at h5; obtain ⟨hn1, hn2, -⟩ := h5
+                  cases hP : parseObj ⟨c.cur, c.max⟩ s j5 with
+                  | mk r d =>
+                    rw [hP] at hh
+                    simp only at hh
+                    obtain ⟨rr, j6⟩ := r
+                    cases rr with
+                    | err k => cases hh
+                    | panic p => cases hh
+                    | ok o =>
+                      simp only [Prod.mk.injEq, Res.ok.injEq] at hh
+                      obtain ⟨⟨hh1, hh2⟩, hh3⟩ := hh
+                      subst hh2
+                      have hg := Parsley.C16.parseObj_good ⟨c.cur, c.max⟩ s j5 hn2 hc
+                      simp only at hg
+                      have e4 : j5 < j6 := by
+                        cases hB : parseObjB c.max (c.max - c.cur) c.cur s j5 with
+                        | mk rr cur' =>
+                          rw [hB] at hg
+                          have hP' := hP
+                          unfold parseObj at hP'
+                          simp only [hB, Prod.mk.injEq] at hP'
+                          rw [hP'.1] at hg
+                          obtain ⟨-, e2, e3, e4, e5, -⟩ := hg
+                          omega
+                      have ho : h.o = o := by rw [← hh1]
+                      have hPt := parseObj_local ⟨c.cur, c.max⟩ s t j5 n o j6 d hs ht hst (by omega) hc hP hjn hR
+                        (by rw [← ho]; exact hnl)
+                      unfold indirectHead
+                      rw [tok_local integerP_trunc integerP_Ext s t i n num j0 ht hst hi heq (by omega)]
+                      simp only
+                      rw [if_neg hu1, tok_local (wsEOL_trunc true) (wsEOL_Ext true) s t j0 n u j1 ht hst hj2 heq2 (by omega)]
+                      simp only
+                      rw [tok_local integerP_trunc integerP_Ext s t j1 n gen j2 ht hst hk2 heq3 (by omega)]
+                      simp only
+                      rw [if_neg hu2, tok_local (wsEOL_trunc true) (wsEOL_Ext true) s t j2 n u2 j3 ht hst hl2 heq4 (by omega)]
+                      simp only
+                      rw [exact_local hst heq5 (by omega)]
+                      simp only
+                      rw [tok_local (wsEOL_trunc true) (wsEOL_Ext true) s t j4 n u3 j5 ht hst g1.2 heq6 (by omega)]
+                      simp only
+                      rw [hPt]
+                      simp only [hh1, hh3]
+
+/-! ## the object parser never builds a stream object (only `IndirectP` does) -/
+
+theorem wsEOL_ok_in {e : Bool} {s : Bytes} {i c : Nat} {v : Located Unit} (h : wsEOL e s i = (.ok v, c)) :
+    i ≤ s.length := by
+  by_cases hh : i ≤ s.length
+  · exact hh
+  · exfalso
+    have hf : s.length + 1 - i = 0 := by omega
+    unfold wsEOL at h
+    rw [hf] at h
+    simp [wsEOLLoop] at h
+
+theorem liftTok_not_stream {α : Type} (f : α → Obj) (hf : ∀ a kvs sc, f a ≠ .stream kvs sc) (cur : Nat)
+    (r : Res (Located α) × Nat) (o : Obj) (c cur' : Nat) (h : liftTok f cur r = ((.ok o, c), cur')) :
+    ∀ kvs sc, o ≠ .stream kvs sc := by
+  obtain ⟨r, j⟩ := r
+  cases r with
+  | ok v =>
+    simp only [liftTok, Prod.mk.injEq, Res.ok.injEq] at h
+    rw [← h.1.1]; exact hf v.val
+  | err k => simp [liftTok] at h
+  | panic p => simp [liftTok] at h
+
+theorem numberOrRef_not_stream (s : Bytes) (i : Nat) (o : Obj) (c : Nat) (h : numberOrRef s i = (.ok o, c)) :
+    ∀ kvs sc, o ≠ .stream kvs sc := by
+  have fin : ∀ {x : Obj} {j : Nat}, (∀ kvs sc, x ≠ .stream kvs sc) → ((Res.ok x, j) : Res Obj × Nat) = (.ok o, c) →
+      ∀ kvs sc, o ≠ .stream kvs sc := by
+    intro x j hx hh
+    simp only [Prod.mk.injEq, Res.ok.injEq] at hh
+    rw [← hh.1]; exact hx
+  unfold numberOrRef at h
+  split at h
+  · cases h
+  · cases h
+  · simp only at h
+    split at h
+    · exact fin (by intro _ _ hh; cases hh) h
+    · split at h
+      · cases h
+      · exact fin (by intro _ _ hh; cases hh) h
+      · split at h
+        · cases h
+        · exact fin (by intro _ _ hh; cases hh) h
+        · split at h
+          · cases h
+          · exact fin (by intro _ _ hh; cases hh) h
+          · split at h
+            · split at h
+              · exact fin (by intro _ _ hh; cases hh) h
+              · cases h
+              · cases h
+            · exact fin (by intro _ _ hh; cases hh) h
+
+theorem parseInternal_not_stream (el : Elem) (cur : Nat) (s : Bytes) (i : Nat) (o : Obj) (c cur' : Nat)
+    (h : parseInternal el cur s i = ((.ok o, c), cur')) : ∀ kvs sc, o ≠ .stream kvs sc := by
+  unfold parseInternal at h
+  split at h
+  · cases h
+  · split at h
+    · exact liftTok_not_stream _ (by intro a kvs sc hh; cases hh) _ _ _ _ _ h
+    split at h
+    · exact liftTok_not_stream _ (by intro a kvs sc hh; cases hh) _ _ _ _ _ h
+    split at h
+    · exact liftTok_not_stream _ (by intro a kvs sc hh; cases hh) _ _ _ _ _ h
+    split at h
+    · exact liftTok_not_stream _ (by intro a kvs sc hh; cases hh) _ _ _ _ _ h
+    split at h
+    · exact liftTok_not_stream _ (by intro a kvs sc hh; cases hh) _ _ _ _ _ h
+    split at h
+    · split at h
+      · simp only [Prod.mk.injEq, Res.ok.injEq] at h; rw [← h.1.1]; intro kvs sc hh; cases hh
+      · cases h
+      · cases h
+    split at h
+    · split at h
+      · split at h
+        · simp only [Prod.mk.injEq, Res.ok.injEq] at h; rw [← h.1.1]; intro kvs sc hh; cases hh
+        · cases h
+        · cases h
+      · exact liftTok_not_stream _ (by intro a kvs sc hh; cases hh) _ _ _ _ _ h
+    split at h
+    · cases h
+    · simp only [Prod.mk.injEq] at h
+      exact numberOrRef_not_stream s i o c h.1
+
+/-- `parse_pdf_obj` never returns a stream object -/
+theorem parseObjB_not_stream (max b cur : Nat) (s : Bytes) (i : Nat) (v : Located Obj) (c cur' : Nat)
+    (h : parseObjB max b cur s i = ((.ok v, c), cur')) : ∀ kvs sc, v.val ≠ .stream kvs sc := by
+  unfold parseObjB at h
+  split at h
+  · cases h
+  · cases b with
+    | zero => cases h
+    | succ b =>
+      simp only at h
+      cases hO : objParse (parseObjB max b) (cur + 1) s i with
+      | mk rk cur2 =>
+        obtain ⟨r, k⟩ := rk
+        rw [hO] at h
+        unfold leaveObj at h
+        simp only at h
+        split at h
+        · cases h
+        · simp only [Prod.mk.injEq] at h
+          obtain ⟨⟨h1, h2⟩, h3⟩ := h
+          subst h1
+          unfold objParse at hO
+          split at hO
+          · cases hO
+          · cases hO
+          · split at hO
+            · rename_i hI
+              simp only [Prod.mk.injEq, Res.ok.injEq] at hO
+              rw [← hO.1.1]
+              exact parseInternal_not_stream _ _ _ _ _ _ _ hI
+            · cases hO
+            · cases hO
+
+/-- … hence the object of a parsed head `n g obj <object>` is not a stream -/
+theorem indirectHead_not_stream (c : Ctx) (s : Bytes) (i : Nat) (h : Head) (j : Nat) (c1 : Ctx)
+    (hh : indirectHead c s i = ((.ok h, j), c1)) : ∀ kvs sc, h.o.val ≠ .stream kvs sc := by
+  unfold indirectHead at hh
+  split at hh
+  · cases hh
+  · cases hh
+  · split at hh
+    · cases hh
+    · split at hh
+      · cases hh
+      · cases hh
+      · split at hh
+        · cases hh
+        · cases hh
+        · split at hh
+          · cases hh
+          · split at hh
+            · cases hh
+            · cases hh
+            · split at hh
+              · cases hh
+              · split at hh
+                · cases hh
+                · cases hh
+                · rename_i j5 _
+                  cases hP : parseObj ⟨c.cur, c.max⟩ s j5 with
+                  | mk r d =>
+                    rw [hP] at hh
+                    simp only at hh
+                    obtain ⟨rr, j6⟩ := r
+                    cases rr with
+                    | err k => cases hh
+                    | panic p => cases hh
+                    | ok o =>
+                      simp only [Prod.mk.injEq, Res.ok.injEq] at hh
+                      rw [← hh.1.1]
+                      simp only
+                      unfold parseObj at hP
+                      simp only [Prod.mk.injEq] at hP
+                      cases hB : parseObjB c.max (c.max - c.cur) c.cur s j5 with
+                      | mk r' cur' =>
+                        rw [hB] at hP
+                        simp only at hP
+                        rw [hP.1] at hB
+                        exact parseObjB_not_stream _ _ _ _ _ _ _ _ hB
+
+/-- a parsed head `n g obj <object>` consumes input -/
+theorem indirectHead_progress (c : Ctx) (s : Bytes) (i : Nat) (h : Head) (j : Nat) (c1 : Ctx)
+    (hi : i ≤ s.length) (hc : c.cur ≤ c.max)
+    (hh : indirectHead c s i = ((.ok h, j), c1)) : i < j ∧ j ≤ s.length := by
+  unfold indirectHead at hh
+  have h1 := integerP_progress s i hi
+  split at hh
+  · cases hh
+  · cases hh
+  · rename_i num j0 heq
+    rw [heq] at h1; obtain ⟨-, -, hj1, hj2⟩ := h1
+    split at hh
+    · cases hh
+    · have h2 := wsEOL_progress true s j0 hj2
+      split at hh
+      · cases hh
+      · cases hh
+      · rename_i u j1 heq2
+        rw [heq2] at h2; obtain ⟨hk1, hk2, -⟩ := h2
+        have h3 := integerP_progress s j1 hk2
+        split at hh
+        · cases hh
+        · cases hh
+        · rename_i gen j2 heq3
+          rw [heq3] at h3; obtain ⟨-, -, hl1, hl2⟩ := h3
+          split at hh
+          · cases hh
+          · have h4 := wsEOL_progress true s j2 hl2
+            split at hh
+            · cases hh
+            · cases hh
+            · rename_i u2 j3 heq4
+              rw [heq4] at h4; obtain ⟨hm1, hm2, -⟩ := h4
+              split at hh
+              · cases hh
+              · rename_i j4 heq5
+                have g1 := exact_ok heq5 hm2
+                have h5 := wsEOL_progress true s j4 g1.2
+                split at hh
+                · cases hh
+                · cases hh
+                · rename_i u3 j5 heq6
+                  rw [heq6] at h5; obtain ⟨hn1, hn2, -⟩ := h5
+                  cases hP : parseObj ⟨c.cur, c.max⟩ s j5 with
+                  | mk r d =>
+                    rw [hP] at hh
+                    simp only at hh
+                    obtain ⟨rr, j6⟩ := r
+                    cases rr with
+                    | err k => cases hh
+                    | panic p => cases hh
+                    | ok o =>
+                      simp only [Prod.mk.injEq, Res.ok.injEq] at hh
+                      obtain ⟨⟨hh1, hh2⟩, hh3⟩ := hh
+                      subst hh2
+                      have hg := Parsley.C16.parseObj_good ⟨c.cur, c.max⟩ s j5 hn2 hc
+                      simp only at hg
+                      cases hB : parseObjB c.max (c.max - c.cur) c.cur s j5 with
+                      | mk rr cur' =>
+                        rw [hB] at hg
+                        have hP' := hP
+                        unfold parseObj at hP'
+                        simp only [hB, Prod.mk.injEq] at hP'
+                        rw [hP'.1] at hg
+                        obtain ⟨-, e2, e3, e4, e5, -⟩ := hg
+                        omega
 
 end Parsley.IndirectLocal
